@@ -139,10 +139,17 @@ def run(c, index, tier):
     g = ch.subseed("r", "global-seed")
     names = ["v%d" % j for j in range(d)]
     df = pandas.DataFrame(X.copy(), columns=names)
+    object_col = (not int_table) and ch.boolean("w", 0.15, "object-column")
+    if object_col:
+        # a numeric column stored with dtype object (what a CSV reader or a
+        # mixed-type concatenation leaves behind): still one variable
+        j = ch.draw("w", d, "object-col-index")
+        df[names[j]] = df[names[j]].astype(object)
+        c.probe("frame_with_object_dtype_column")
     # "its array" is the frame's own array (same memory layout): a C-ordered
     # copy differs from it by an ulp after scaling, which a tree model can
     # amplify through tie-breaking -- not this property's subject
-    X = numpy.array(df.values, order="K", copy=True)
+    X = numpy.array(df.values.astype(numpy.float64) if object_col else df.values, order="K", copy=True)
     c.scenario = {"n": n, "d": d, "int_dtype": int_table, "columns": kinds, "model": model_name, "draws": draws, "minmax": minmax, "split": mode, "fault": fault, "data_seed": seed}
     c.signature = [d, tuple(sorted(set(kinds))), model_name, draws, minmax, mode, fault, n // 6]
     c.entropy = E.Entropy("pinned")
